@@ -67,6 +67,12 @@ def execute(case: dict) -> dict:
                 "triangles": [[as_int(i) for i in row] for row in t.tolist()],
                 "cells": [as_int(i) for i in c.tolist()]}
     rec["events"].append({"a": "Triangulate", "obs": outcome(tri)})
+    # ... and again, of a second dataset object sharing the first one's arrays (with its own convention object)
+    ds_first = ds
+    ds = ds_first.copy(deep=False)
+    W.bind(w, ds)
+    rec["events"].append({"a": "Triangulate", "on": "shallow-copy", "obs": outcome(tri)})
+    ds = ds_first
     rec["input"] = {"before": _before, "after": _snapshot(ds)}
     return rec
 
